@@ -44,4 +44,15 @@ def specSendByte (r a b n w l : Bool) : Nat :=
   (if r then 1 else 0) + (if a then 2 else 0) + (if b then 4 else 0) + (if n then 8 else 0) +
   (if w then 16 else 0) + (if l then 32 else 0) + 64
 
+/-! ## The event log of `ModbusControlBlock` (device.py: `addEvent` / `getEvents` / `clearEvents`) -/
+
+/-- `addEvent`: `events.insert(0, event); events = events[0:64]` (the Event counter is in Model/Control) -/
+def addEvent (log : List Event) (e : Event) : List Event := (e :: log).take 64
+
+/-- `getEvents`: `b''.join(event.encode() for event in events)` -/
+def getEvents (log : List Event) : Bytes := log.flatMap encode
+
+/-- the log after a history of `addEvent` calls, oldest call first -/
+def runLog (log : List Event) (es : List Event) : List Event := es.foldl addEvent log
+
 end Pymodbus.Events
